@@ -3,6 +3,7 @@ package main
 import (
 	"fmt"
 	"go/ast"
+	"go/token"
 	"go/types"
 	"strings"
 )
@@ -55,6 +56,103 @@ func phaseOfVars(info *types.Info, x ast.Expr) string {
 	return ""
 }
 
+// tablePhases: `for _, row := range table { for k, v := range row.<vars>.All() { row.<set>(k, v) } }` over a local slice of
+// struct rows built by one composite literal and later appends; the rows in construction order, each with the expression of
+// its *ast.Vars field.
+type tableRow struct {
+	row   ast.Node
+	vars  ast.Expr
+	feeds bool
+}
+
+func tablePhases(info *types.Info, fb *FuncBody, r *ast.RangeStmt) []tableRow {
+	tbl := varOf(info, r.X)
+	if tbl == nil || r.Value == nil {
+		return nil
+	}
+	rowVar := varOf(info, r.Value)
+	sl, ok := tbl.Type().Underlying().(*types.Slice)
+	if !ok || rowVar == nil {
+		return nil
+	}
+	st, ok := sl.Elem().Underlying().(*types.Struct)
+	if !ok {
+		return nil
+	}
+	varsField := ""
+	for i := 0; i < st.NumFields(); i++ {
+		if pt, ok := st.Field(i).Type().(*types.Pointer); ok && isNamed(pt.Elem(), PkgAst, "Vars") {
+			varsField = st.Field(i).Name()
+		}
+	}
+	if varsField == "" {
+		return nil
+	}
+	// the inner loop ranges over row.<varsField>.All() and feeds a function-typed field of the row (or a range function)
+	feeds := false
+	var inner *ast.RangeStmt
+	for _, s := range r.Body.List {
+		if ir, ok := s.(*ast.RangeStmt); ok {
+			if call, ok := ast.Unparen(ir.X).(*ast.CallExpr); ok {
+				if sel, ok := ast.Unparen(call.Fun).(*ast.SelectorExpr); ok && sel.Sel.Name == "All" {
+					if fs, ok := ast.Unparen(sel.X).(*ast.SelectorExpr); ok && fs.Sel.Name == varsField && varOf(info, fs.X) == rowVar {
+						inner = ir
+					}
+				}
+			}
+		}
+	}
+	if inner == nil {
+		return nil
+	}
+	inspectBody(inner.Body, func(nd ast.Node) bool {
+		if call, ok := nd.(*ast.CallExpr); ok && len(call.Args) == 2 {
+			if tv, ok := info.Types[call.Fun]; ok {
+				if _, isSig := tv.Type.Underlying().(*types.Signature); isSig && (unconditionalIn(inner.Body.List, call) || condOnlyErr(inner.Body.List, call)) {
+					feeds = true
+				}
+			}
+		}
+		return true
+	})
+	var rows []tableRow
+	addLit := func(lit *ast.CompositeLit) {
+		for i, el := range lit.Elts {
+			if kv, ok := el.(*ast.KeyValueExpr); ok {
+				if id, ok := kv.Key.(*ast.Ident); ok && id.Name == varsField {
+					rows = append(rows, tableRow{lit, kv.Value, feeds})
+				}
+			} else if i < st.NumFields() && st.Field(i).Name() == varsField {
+				rows = append(rows, tableRow{lit, el, feeds})
+			}
+		}
+	}
+	inspectBody(fb.Body, func(nd ast.Node) bool {
+		as, ok := nd.(*ast.AssignStmt)
+		if !ok || len(as.Lhs) != 1 || len(as.Rhs) != 1 || varOf(info, as.Lhs[0]) != tbl || as.Pos() > r.Pos() {
+			return true
+		}
+		switch x := ast.Unparen(as.Rhs[0]).(type) {
+		case *ast.CompositeLit:
+			for _, el := range x.Elts {
+				if l, ok := ast.Unparen(el).(*ast.CompositeLit); ok {
+					addLit(l)
+				}
+			}
+		case *ast.CallExpr:
+			if isBuiltin(info, x, "append") && len(x.Args) > 0 && varOf(info, x.Args[0]) == tbl {
+				for _, arg := range x.Args[1:] {
+					if l, ok := ast.Unparen(arg).(*ast.CompositeLit); ok {
+						addLit(l)
+					}
+				}
+			}
+		}
+		return true
+	})
+	return rows
+}
+
 func c10WriteOrder(c *Check, a *Anchors) {
 	c.Rule("vars-write-order", "in the variable resolver the phases occur, by position on every path, in the order: process environment -> special variables -> Taskfile env -> Taskfile vars -> include-statement vars -> included-Taskfile vars -> call vars -> task vars (phases identified by the field they range over); every phase feeds each variable to a range function that ends, on every non-error path, in an unconditional Set on the result (override, never set-if-absent); the early return for `t == nil || call == nil` lies between the included-Taskfile phase and the call-vars phase; templating uses a cache built for the current state of the result")
 	fb := a.GetVariables
@@ -91,6 +189,17 @@ func c10WriteOrder(c *Check, a *Anchors) {
 		case *ast.RangeStmt:
 			if p := phaseOf(info, x.X); p != "" {
 				phases = append(phases, ph{p, x})
+			} else if tp := tablePhases(info, fb, x); len(tp) > 0 {
+				// the phases are rows of an ordered table that one loop applies: the order of the rows is the order of the phases
+				for _, e := range tp {
+					if p := phaseOfVars(info, e.vars); p != "" {
+						phases = append(phases, ph{p, e.row})
+						helperPhases[e.row] = e.feeds
+						if !e.feeds {
+							c.Bad("vars-write-order", "phase-feeds-range-func "+p+"@"+name, x.Pos(), "the loop over the table of variable sources does not hand every variable of a source unconditionally to the source's range function")
+						}
+					}
+				}
 			} else if tv, ok := info.Types[x.X]; ok {
 				if m, isMap := tv.Type.Underlying().(*types.Map); isMap && types.TypeString(m.Elem(), nil) == "string" {
 					phases = append(phases, ph{"2-special-vars", x})
@@ -434,7 +543,7 @@ func fieldSelExprIs(info *types.Info, call *ast.CallExpr, field string) bool {
 }
 
 func c10OSEnvWins(c *Check, a *Anchors) {
-	c.Rule("os-env-wins", "in env.GetFromVars a Taskfile variable is appended to the process environment only when the ENV_PRECEDENCE experiment is enabled or os.LookupEnv reports the name as not set (presence, not non-emptiness, decides)")
+	c.Rule("os-env-wins", "in env.GetFromVars a Taskfile variable is appended to the process environment exactly when the ENV_PRECEDENCE experiment is enabled or os.LookupEnv reports the name as not set (presence, not non-emptiness, decides) — decided by evaluating the loop body for the four combinations of (experiment enabled, name present in the process environment)")
 	fb := c.P.Func(PkgEnv, "", "GetFromVars")
 	if fb == nil {
 		c.Errorf("os-env-wins: env.GetFromVars not found")
@@ -442,42 +551,6 @@ func c10OSEnvWins(c *Check, a *Anchors) {
 	}
 	c.Fn(fb)
 	info := fb.Info()
-	f := NewFlow(c.P, fb, func(call *ast.CallExpr, obj types.Object) string {
-		switch {
-		case isFunc(obj, "os", "", "LookupEnv"):
-			return "lookupenv"
-		case isFunc(obj, "os", "", "Getenv"):
-			return "getenv"
-		}
-		if fn, ok := obj.(*types.Func); ok && fn.Name() == "Enabled" && strings.Contains(exprStr(call.Fun), "EnvPrecedence") {
-			return "precedence"
-		}
-		return ""
-	})
-	f.Run()
-	n := 0
-	for node, st := range f.At {
-		as, ok := node.(*ast.AssignStmt)
-		if !ok || len(as.Rhs) != 1 {
-			continue
-		}
-		call, ok := ast.Unparen(as.Rhs[0]).(*ast.CallExpr)
-		if !ok || !isBuiltin(info, call, "append") {
-			continue
-		}
-		n++
-		// must-facts at the append: either precedence enabled, or lookupenv said not set. Neither is a must-fact after the join,
-		// so the rule is checked on the complementary edge: the `continue` that skips the variable.
-		_ = st
-	}
-	// the skip: a continue dominated by false:precedence and true:lookupenv
-	okSkip := false
-	usesGetenv := false
-	for _, l := range f.Labels {
-		if l == "getenv" {
-			usesGetenv = true
-		}
-	}
 	var loop *ast.RangeStmt
 	inspectBody(fb.Body, func(nd ast.Node) bool {
 		if r, ok := nd.(*ast.RangeStmt); ok && loop == nil {
@@ -485,39 +558,190 @@ func c10OSEnvWins(c *Check, a *Anchors) {
 		}
 		return true
 	})
-	if loop != nil {
-		inspectBody(loop.Body, func(nd ast.Node) bool {
-			ifs, ok := nd.(*ast.IfStmt)
-			if !ok {
-				return true
+	if loop == nil {
+		c.Errorf("os-env-wins: loop over the variables not found in env.GetFromVars")
+		return
+	}
+	// three-valued evaluation: 1 true, 0 false, -1 unknown
+	type world struct{ precedence, set bool }
+	not := func(v int) int {
+		if v < 0 {
+			return v
+		}
+		return 1 - v
+	}
+	b2i := func(b bool) int {
+		if b {
+			return 1
+		}
+		return 0
+	}
+	// isPresence: the call reports presence of a name in the process environment: a predicate of the module whose body is
+	// `_, ok := os.LookupEnv(p); return ok`
+	isPresence := func(inf *types.Info, call *ast.CallExpr) bool {
+		fn, _ := callee(inf, call).(*types.Func)
+		h := c.P.DeclOf(fn)
+		if h == nil || h.Decl == nil || !strings.HasPrefix(h.Pkg.PkgPath, Mod) || len(h.Body.List) != 2 {
+			return false
+		}
+		as, ok := h.Body.List[0].(*ast.AssignStmt)
+		r, ok2 := h.Body.List[1].(*ast.ReturnStmt)
+		if !ok || !ok2 || len(as.Lhs) != 2 || len(as.Rhs) != 1 || len(r.Results) != 1 {
+			return false
+		}
+		lc, ok := ast.Unparen(as.Rhs[0]).(*ast.CallExpr)
+		if !ok || !isFunc(callee(h.Info(), lc), "os", "", "LookupEnv") {
+			return false
+		}
+		c.Fn(h)
+		return varOf(h.Info(), r.Results[0]) != nil && varOf(h.Info(), r.Results[0]) == varOf(h.Info(), as.Lhs[1])
+	}
+	usesGetenv := false
+	var evalE func(e ast.Expr, w world, okVars map[*types.Var]bool, depth int) int
+	evalE = func(e ast.Expr, w world, okVars map[*types.Var]bool, depth int) int {
+		e = ast.Unparen(e)
+		switch x := e.(type) {
+		case *ast.UnaryExpr:
+			if x.Op == token.NOT {
+				return not(evalE(x.X, w, okVars, depth))
 			}
-			// `if _, alreadySet := os.LookupEnv(k); alreadySet { continue }` nested in `if !precedence.Enabled()`
-			if ifs.Init != nil {
-				if as, ok := ifs.Init.(*ast.AssignStmt); ok && len(as.Rhs) == 1 {
-					if call, ok := ast.Unparen(as.Rhs[0]).(*ast.CallExpr); ok && isFunc(callee(info, call), "os", "", "LookupEnv") && len(as.Lhs) == 2 {
-						if varOf(info, ifs.Cond) == varOf(info, as.Lhs[1]) && len(ifs.Body.List) == 1 {
-							if b, ok := ifs.Body.List[0].(*ast.BranchStmt); ok && b.Tok.String() == "continue" {
-								okSkip = true
-							}
+		case *ast.BinaryExpr:
+			l, r := evalE(x.X, w, okVars, depth), evalE(x.Y, w, okVars, depth)
+			switch x.Op {
+			case token.LAND:
+				if l == 0 || r == 0 {
+					return 0
+				}
+				if l == 1 && r == 1 {
+					return 1
+				}
+			case token.LOR:
+				if l == 1 || r == 1 {
+					return 1
+				}
+				if l == 0 && r == 0 {
+					return 0
+				}
+			}
+			return -1
+		case *ast.Ident:
+			v := varOf(info, x)
+			if v == nil {
+				return -1
+			}
+			if okVars[v] {
+				return b2i(w.set)
+			}
+			if d := singleDef(info, fb.Body, v); d != nil && depth > 0 {
+				return evalE(d, w, okVars, depth-1)
+			}
+		case *ast.CallExpr:
+			if fn, ok := callee(info, x).(*types.Func); ok && fn.Name() == "Enabled" && strings.Contains(exprStr(x.Fun), "EnvPrecedence") {
+				return b2i(w.precedence)
+			}
+			if isPresence(info, x) {
+				return b2i(w.set)
+			}
+		}
+		return -1
+	}
+	bindOK := func(st ast.Stmt, okVars map[*types.Var]bool) {
+		if as, ok := st.(*ast.AssignStmt); ok && len(as.Lhs) == 2 && len(as.Rhs) == 1 {
+			if call, ok := ast.Unparen(as.Rhs[0]).(*ast.CallExpr); ok && isFunc(callee(info, call), "os", "", "LookupEnv") {
+				if v := varOf(info, as.Lhs[1]); v != nil {
+					okVars[v] = true
+				}
+			}
+		}
+	}
+	// walk: "skip" (continue reached), "append" (the variable is added), "" (fell through), "?" (a construct not interpreted)
+	var walk func(list []ast.Stmt, w world, okVars map[*types.Var]bool) string
+	walk = func(list []ast.Stmt, w world, okVars map[*types.Var]bool) string {
+		for _, st := range list {
+			switch x := st.(type) {
+			case *ast.BranchStmt:
+				if x.Tok == token.CONTINUE {
+					return "skip"
+				}
+				return "?"
+			case *ast.ReturnStmt:
+				return "?"
+			case *ast.AssignStmt:
+				bindOK(x, okVars)
+				if len(x.Rhs) == 1 {
+					if call, ok := ast.Unparen(x.Rhs[0]).(*ast.CallExpr); ok && isBuiltin(info, call, "append") {
+						return "append"
+					}
+				}
+			case *ast.IfStmt:
+				if x.Init != nil {
+					bindOK(x.Init, okVars)
+				}
+				switch evalE(x.Cond, w, okVars, 2) {
+				case 1:
+					if out := walk(x.Body.List, w, okVars); out != "" {
+						return out
+					}
+				default: // false, or about something else (the value's type ...): the variable is otherwise eligible
+					switch e := x.Else.(type) {
+					case *ast.BlockStmt:
+						if out := walk(e.List, w, okVars); out != "" {
+							return out
+						}
+					case *ast.IfStmt:
+						if out := walk([]ast.Stmt{e}, w, okVars); out != "" {
+							return out
 						}
 					}
 				}
+			case *ast.BlockStmt:
+				if out := walk(x.List, w, okVars); out != "" {
+					return out
+				}
+			case *ast.ExprStmt, *ast.DeclStmt, *ast.IncDecStmt:
+			default:
+				// a statement about something else (a type switch on the value ...): the variable is otherwise eligible; one that
+				// involves the experiment or the process environment is not interpreted
+				involved := false
+				ast.Inspect(st, func(m ast.Node) bool {
+					switch y := m.(type) {
+					case *ast.CallExpr:
+						if evalE(y, world{true, true}, okVars, 0) >= 0 || isFunc(callee(info, y), "os", "", "LookupEnv") {
+							involved = true
+						}
+					case *ast.Ident:
+						if v := varOf(info, y); v != nil && okVars[v] {
+							involved = true
+						}
+					}
+					return true
+				})
+				if involved {
+					return "?"
+				}
 			}
-			return true
-		})
+		}
+		return ""
 	}
-	c.Decide(okSkip && !usesGetenv && n > 0, "os-env-wins", "presence-decides@"+fnDisplay(fb), fb.Decl.Pos(), "skip when os.LookupEnv reports the name set (comma-ok), unless ENV_PRECEDENCE",
-		fmt.Sprintf("the process environment no longer wins by PRESENCE of the name (LookupEnv comma-ok skip: %v, uses os.Getenv: %v): a variable exported as empty would be overridden by the Taskfile's env", okSkip, usesGetenv))
-	// the precedence experiment guards the skip: LookupEnv is consulted only on the edge where the experiment is disabled
-	guard := false
-	nLookup := 0
-	for call, l := range f.Labels {
-		if l == "lookupenv" {
-			nLookup++
-			guard = f.At[call].Has("false:precedence")
+	inspectDeep(fb.Body, func(nd ast.Node) bool {
+		if call, ok := nd.(*ast.CallExpr); ok && isFunc(callee(info, call), "os", "", "Getenv") {
+			usesGetenv = true
+		}
+		return true
+	})
+	var bad []string
+	for _, w := range []world{{false, false}, {false, true}, {true, false}, {true, true}} {
+		got := walk(loop.Body.List, w, map[*types.Var]bool{})
+		want := "append"
+		if !w.precedence && w.set {
+			want = "skip"
+		}
+		if got != want {
+			bad = append(bad, fmt.Sprintf("ENV_PRECEDENCE enabled=%v, name present in the process environment=%v: the loop body ends in %q, expected %q", w.precedence, w.set, got, want))
 		}
 	}
-	c.Decide(guard && nLookup == 1, "os-env-wins", "experiment-guards-skip@"+fnDisplay(fb), fb.Decl.Pos(), "the skip applies only when ENV_PRECEDENCE is disabled", "the process-environment test is not confined to the edge where experiments.EnvPrecedence.Enabled() is false")
+	c.Decide(len(bad) == 0 && !usesGetenv, "os-env-wins", "presence-decides@"+fnDisplay(fb), fb.Decl.Pos(), "the variable is skipped exactly when ENV_PRECEDENCE is off and os.LookupEnv reports the name present",
+		fmt.Sprintf("the process environment no longer wins by PRESENCE of the name exactly when ENV_PRECEDENCE is off (uses os.Getenv: %v): %s", usesGetenv, strings.Join(bad, "; ")))
 }
 
 func c10PhaseSources(c *Check, a *Anchors) {
